@@ -50,6 +50,8 @@ def register(reg):
             _run_phases_with_profiling='bool', _abort='ref:event', _full_abort='ref:event', _lock='ref:lock',
             _teardown_phases_lock='ref:rlock', _phase_profile_stats='list', uid='str')
 
+  register_executor_callees(reg)
+
   # ---- trusted: wall clock.  time_millis() is non-negative and never decreases (ghost clock in the registry spec)
   c = reg.contract(UT, 'time_millis', props=())
   c.returns('int').modifies().ensures('positive', 'result > 0')
@@ -59,3 +61,75 @@ def register(reg):
   c = reg.contract(UT, 'SubscribableStateMixin.notify_update', props=())
   c.modifies()
   c.trusted('frame of notify_update (sets and clears watcher events only); its behaviour is the subject of C18')
+
+
+def register_executor_callees(reg):
+  """Contracts of the functions the test executor calls (verified under C05 / C08; assumed at the executor's call sites)."""
+  PL = 'openhtf/plugs/__init__.py'
+  reg.repo.module('openhtf.plugs')
+  reg.shape('PhaseExecutor', test_state='ref:TestState', _stopping='ref:event', _current_phase_thread='opt:ref:PhaseExecutorThread',
+            _current_phase_thread_lock='ref:lock')
+  reg.shape('PhaseDescriptor', options='ref:PhaseOptions', func_location='str', plugs='list', measurements='list',
+            diagnosers='list', func='fn:phase_body', extra_kwargs='dict', code_info='ref:object')
+  reg.shape('PhaseOptions', name='val{none,str,fn}', timeout_s='val{none,int,float}', run_if='opt:fn:run_if', requires_state='bool',
+            force_repeat='bool', repeat_on_measurement_fail='bool', repeat_on_timeout='bool', repeat_limit='val{none,int}',
+            run_under_pdb='bool', stop_on_measurement_fail='bool')
+  reg.shape('PlugManager', _plugs_by_type='dict', _plugs_by_name='dict', _plug_types='set')
+  reg.shape('Checkpoint', name='str', action='enum:PhaseResult')
+  records = 'self.test_state.test_record.phases'
+  grows = ('len({r}) >= old(len({r})) and forall_int(lambda j: implies(0 <= j and j < old(len({r})), '
+           '{r}[j] is old(content({r}))[j]))').format(r=records)
+  new_have_outcome = ('forall_int(lambda j: implies(old(len({r})) <= j and j < len({r}), {r}[j].outcome is not None))'
+                      ).format(r=records)
+
+  PD = 'openhtf/core/phase_descriptor.py'
+  c = reg.contract(PD, 'PhaseDescriptor.name', props=())
+  c.returns('str').modifies().function_of('self')
+  c.trusted('the display name of a phase is a pure function of the descriptor (string case conversion not modelled)')
+
+  c = reg.contract(PE, 'PhaseExecutor.execute_phase', props=['C05'])
+  c.param('phase', 'ref:PhaseDescriptor').param('run_with_profiling', 'bool').param('subtest_rec', 'opt:ref:SubtestRecord')
+  c.returns('ptuple(ref:PhaseExecutionOutcome;val{none,ref:object})')
+  c.ensures('records_only_appended', grows)
+  c.ensures('new_records_have_outcomes', new_have_outcome)
+  c.ensures('fail_subtest_only_in_subtest', 'implies(result[0].is_fail_subtest, subtest_rec is not None)')
+  c.ensures('error_record_means_terminal_result',
+            ('forall_int(lambda j: implies(old(len({r})) <= j and j < len({r}) and {r}[j].outcome is test_record.PhaseOutcome.ERROR, '
+             'result[0].is_terminal))').format(r=records))
+  c.modifies('list(%s)' % records, 'self.test_state.running_phase_state', 'self.test_state._running_test_api',
+             'self._current_phase_thread', 'PhaseRecord.outcome', 'PhaseRecord.result', 'PhaseRecord.marginal',
+             'PhaseRecord.end_time_millis', 'PhaseRecord.start_time_millis', 'PhaseRecord.options', 'PhaseRecord.measurements',
+             'PhaseRecord.subtest_name', 'self.test_state.test_record.dut_id', 'list(self.test_state.test_record.diagnoses)',
+             'list(self.test_state.test_record.log_records)')
+  c.trusted('verified separately (C05 units); here only its contract is used')
+
+  c = reg.contract(PE, 'PhaseExecutor.skip_phase', props=['C05'])
+  c.param('phase_desc', 'ref:PhaseDescriptor').param('subtest_rec', 'opt:ref:SubtestRecord')
+  c.ensures('one_skip_record', ('len({r}) == old(len({r})) + 1 and {r}[len({r}) - 1].outcome is test_record.PhaseOutcome.SKIP and '
+                                'forall_int(lambda j: implies(0 <= j and j < old(len({r})), {r}[j] is old(content({r}))[j]))').format(r=records))
+  c.modifies('list(%s)' % records, 'self.test_state.running_phase_state', 'self.test_state._running_test_api',
+             'PhaseRecord.outcome', 'PhaseRecord.result', 'PhaseRecord.marginal', 'PhaseRecord.end_time_millis',
+             'PhaseRecord.start_time_millis', 'PhaseRecord.options', 'PhaseRecord.measurements', 'PhaseRecord.subtest_name')
+  c.trusted('verified separately (C05 units); here only its contract is used')
+
+  c = reg.contract(PE, 'PhaseExecutor.evaluate_checkpoint', props=['C02'])
+  c.param('checkpoint', 'ref:Checkpoint').param('subtest_rec', 'opt:ref:SubtestRecord')
+  c.returns('ref:PhaseExecutionOutcome')
+  c.ensures('fail_subtest_only_in_subtest', 'implies(result.is_fail_subtest, subtest_rec is not None)')
+  c.modifies('list(self.test_state.test_record.checkpoints)')
+  c.trusted('verified separately (C02 units); here only its contract is used')
+
+  c = reg.contract(PE, 'PhaseExecutor.skip_checkpoint', props=['C02'])
+  c.param('checkpoint', 'ref:Checkpoint').param('subtest_rec', 'opt:ref:SubtestRecord')
+  c.modifies('list(self.test_state.test_record.checkpoints)')
+  c.trusted('verified separately (C02 units); here only its contract is used')
+
+  c = reg.contract(PL, 'PlugManager.tear_down_plugs', props=['C08'])
+  c.modifies('PlugManager._plugs_by_type', 'PlugManager._plugs_by_name', 'dict')
+  c.trusted('verified separately (C08 units): plug tearDown never touches the test record or the executor')
+
+  c = reg.contract(PL, 'PlugManager.initialize_plugs', props=['C08'])
+  c.param('plug_types', 'opt:list')
+  c.raises('Exception')
+  c.modifies('PlugManager._plugs_by_type', 'PlugManager._plugs_by_name', 'dict')
+  c.trusted('verified separately (C08 units)')
